@@ -37,6 +37,14 @@ func verifRoot() string {
 	return "/verif"
 }
 
+// outRoot is where evidence and replay files go (VERIF_OUT_ROOT lets runs against scratch trees keep /verif clean).
+func outRoot() string {
+	if v := os.Getenv("VERIF_OUT_ROOT"); v != "" {
+		return v
+	}
+	return verifRoot()
+}
+
 func loadKnown() []KnownFinding {
 	b, err := os.ReadFile(filepath.Join(verifRoot(), "known_findings.json"))
 	if err != nil {
@@ -381,6 +389,20 @@ func orchestrate() int {
 			exit = 2
 		}
 	}
+	// generator health: a population that mostly fails to run proves nothing
+	if bad := agg.status["crash"] + agg.status["invalid"]; agg.results > 0 && float64(bad) > maxBadShare(cd)*float64(agg.results) {
+		fmt.Fprintf(os.Stderr, "SELFTEST: %d of %d scenarios crashed or were rejected as invalid input (limit %.0f%%); top notes:\n", bad, agg.results, 100*maxBadShare(cd))
+		n := 0
+		for k, v := range agg.notes {
+			if n < 5 {
+				fmt.Fprintf(os.Stderr, "  %dx %s\n", v, k)
+			}
+			n++
+		}
+		if exit == 0 {
+			exit = 2
+		}
+	}
 	// reach self-test (thorough tier only): a probe stuck at zero means the workload must change
 	var stuck []string
 	if tier == "thorough" && os.Getenv("VERIF_N") == "" {
@@ -457,7 +479,7 @@ func lastNonEmpty(s string) string {
 }
 
 func writeReplay(cd *CheckDef, fv foundViolation, tier string, seed uint64) string {
-	dir := filepath.Join(verifRoot(), "replays")
+	dir := filepath.Join(outRoot(), "replays")
 	os.MkdirAll(dir, 0o755)
 	var sc Scenario
 	if fv.sc != nil {
@@ -653,9 +675,16 @@ func writeEvidence(cd *CheckDef, tier string, seed uint64, agg *aggregate, wall 
 		"violations":  nviol,
 	}
 	b, _ := json.MarshalIndent(ev, "", " ")
-	dir := filepath.Join(verifRoot(), "evidence")
+	dir := filepath.Join(outRoot(), "evidence")
 	os.MkdirAll(dir, 0o755)
 	os.WriteFile(filepath.Join(dir, cd.Prop+".json"), b, 0o644)
+}
+
+func maxBadShare(cd *CheckDef) float64 {
+	if cd.MaxBadShare > 0 {
+		return cd.MaxBadShare
+	}
+	return 0.10
 }
 
 func oneTimeout(cd *CheckDef) time.Duration {
